@@ -376,7 +376,8 @@ def check(ctx):
                 if oo[0] == "aggr":
                     rv = oo[1]
             val_ok = rv["k"] == "aggr" and rv.get("variant") == "Some" and op_const(rv["ops"][0]) is not None and op_const(rv["ops"][0]).get("bool") is True
-            if conds == ["arg:force=true"] and val_ok:
+            from rulelib import cli_value_cond
+            if len(conds) == 1 and cli_value_cond(conds[0], "force") == "true" and val_ok:
                 r3.ok("run_generate: config.force = Some(true) under exactly `force`")
             else:
                 r3.bad(V(r3.id, rg.id, "force-assignment-guard:%s:%s" % (",".join(conds), "Some(true)" if val_ok else "other-value"),
@@ -400,7 +401,7 @@ def check(ctx):
             # should_force is read after the flag switch
             for c in rg.calls:
                 if short_path(c.best) == "GenerateConfig::should_force":
-                    sw = [a for (a, lab) in rg.edge_dominators(b) if rg.describe_cond(a, lab) == "arg:force=true"]
+                    sw = [a for (a, lab) in rg.edge_dominators(b) if cli_value_cond(rg.describe_cond(a, lab), "force") == "true"]
                     if sw and rg.dominates(sw[0], c.bb):
                         r3.ok("run_generate: should_force() read after the flag was applied")
                     else:
